@@ -147,6 +147,10 @@ ReqSamples(z) ==
     \cup {Req(15, h[1], h[2], n, Pat(p, CeilDiv8(n)), 0, 0) : h \in HCq, p \in {"ramp", "ones"},
             n \in {1, 2, 7, 8, 9, 16, 17, 1967, 1968}}
     \cup {Req(15, h[1], h[2], n, Pat("ramp", 2), 0, 0) : h \in HCq, n \in {0, 1969, 2000, 65535}}
+    \* out-of-limit counts with a byte count and payload that AGREE with them (the frame is self-consistent, only the limit is crossed)
+    \cup {Req(15, 1, 20, n, Pat("ramp", CeilDiv8(n)), 0, 0) : n \in {1969, 1976, 2000, 2033, 2040}}
+    \cup {Req(16, 1, 30, n, Pat("ramp", 2 * n), 0, 0) : n \in {124, 125, 127}}
+    \cup {Req(23, 1, 40, 1, Pat("ramp", 2 * wn), 50, wn) : wn \in {122, 123, 127}}
     \cup {Req(16, h[1], h[2], n, Pat(p, 2 * n), 0, 0) : h \in HCq, p \in {"ramp", "ones"}, n \in {1, 2, 3, 122, 123}}
     \cup {Req(16, h[1], h[2], n, Pat("ramp", 4), 0, 0) : h \in HCq, n \in {0, 124, 125, 65535}}
     \cup {Req(17, h[1], 0, 0, <<>>, 0, 0) : h \in HC}
